@@ -180,3 +180,39 @@ def resumable_model(msgs):
         if m.d["cmd"] == "clear_checkpoint":
             ok = False
     return out
+
+
+def replayed_response_lost(res):
+    """Known finding D12: a pause/suspension cancelled a message in flight; the replay re-executed it and
+    got a (non-None) response, but the plan's yield is answered with None.
+    Returns the list of (mid, cmd) for which that happened in this history."""
+    cancelled = {}
+    out = []
+    for e in res.history:
+        if e[1] != "cmd":
+            continue
+        d = e[4]
+        if d["end"] == "cancelled" and d.get("state") in ("pausing", "suspending"):
+            cancelled[d["mid"]] = d["cmd"]
+        elif d["end"] == "ok" and d["mid"] in cancelled and d.get("value") is not None:
+            out.append((d["mid"], cancelled.pop(d["mid"])))
+    return out
+
+
+def monitor_lost_in_flight(res):
+    """Known finding D8: a pause/suspension landed while an (uncacheable) 'monitor' message was still
+    awaiting its describe/configuration caching: the message is neither completed nor replayed.
+    True iff the history contains a 'monitor' message for a signal that never got the engine's
+    callback subscribed before the engine left the 'running' state."""
+    evs = res.history
+    for i, e in enumerate(evs):
+        if e[1] == "msg" and e[4]["cmd"] == "monitor":
+            obj = e[4]["obj"]
+            for f in evs[i + 1 :]:
+                if f[1] == "dev" and f[4]["dev"] == obj and f[4]["method"] == "subscribe" and f[4].get("cb") == "RE.monitor":
+                    break
+                if f[1] == "msg":
+                    break
+                if f[1] == "state" and f[4]["new"] in ("pausing", "suspending"):
+                    return True
+    return False
